@@ -6,6 +6,7 @@
 #include <crypt.h>
 #include <dlfcn.h>
 #include <stdlib.h>
+#include <stdarg.h>
 #include "ref_crypt.h"
 #include "ref_des.h"
 
